@@ -398,6 +398,8 @@ def rule_c15(an, res):
                         okf2, _ = lift.feasible(seg)
                         if okf2 and seg.effs('PERM_WR'):
                             check_perm_backptr(res, prop, cm, roles, m, seg)
+                        if okf2 and seg.effs('UNBIND'):
+                            check_rr_remove(res, prop, cm, roles, m, seg)
 
 
 def check_perm_backptr(res, prop, cm, roles, m, seg):
@@ -427,3 +429,27 @@ def check_perm_backptr(res, prop, cm, roles, m, seg):
             V(res, prop, 'R-PERM-BACKPTR', cm, where_of(m, seg), 'open-list entry moved without refreshing the moved element\'s stored position',
               w.site, 'path [%s]: m_open_list[%s] := %s but no m_elements[that slot].m_open_list_position := %s afterwards'
               % (val, show(p), show(v), show(p)))
+
+
+def check_rr_remove(res, prop, cm, roles, m, seg):
+    """rr: the open-list position that a removal frees (the last in-use one) must hold the removed slot: either the path established
+    that the slot already sits there, or it swapped the slot into it"""
+    L = seg.L
+    part = THIS(roles.part)
+    last = ('add', ld0(part), -1)
+    val = ' '.join(seg.valuation())
+    for u in seg.effs('UNBIND'):
+        E = u.ent
+        at_last = any(c[0] == 'IS_LAST_USED' and c[2] is True and isinstance(c[1][0], Ent) and same_ent(c[1][0], E) for c in seg.conds)
+        swapped = False
+        for w in seg.effs('PERM_WR'):
+            if w.pos == last:
+                e2 = L.sid_entity(w.val)
+                if same_ent(e2, E) or (e2.kind == 'POSOF' and e2.arg == E.key()):
+                    swapped = True
+        ok = at_last or swapped
+        res.ob('R-PERM-FREED-IS-VICTIM', ok=ok)
+        if not ok:
+            V(res, prop, 'R-PERM-FREED-IS-VICTIM', cm, where_of(m, seg), 'removal frees the last in-use open-list position without the removed slot being there',
+              u.site, 'path [%s]: slot %r is unbound and the partition shrinks, but nothing establishes that the slot occupies position size-1 '
+              '(neither a test of its stored position nor a swap into it): another live slot is cut off' % (val, E))
